@@ -1616,7 +1616,9 @@ func (b *Builder) spellExtends() []string {
 			nums = append(nums, strings.TrimPrefix(n, "Fn"))
 		}
 		b.label("extend-spelling:regexp")
-		re := "Fn(" + strings.Join(nums, "|") + ")"
+		// anchored: alternation is leftmost-first, so Fn(1|10) alone would stop at Fn1 inside Fn10
+		// and goverter only accepts matches of the whole name
+		re := "Fn(" + strings.Join(nums, "|") + ")$"
 		if b.coin("extend-regexp-with-package") {
 			re = pkg + re
 		}
